@@ -1,9 +1,9 @@
 (* Props/C05.v — property C05: fixed-size simplification is an exact-size, nested greedy refinement.
    Only statements, each closed by `exact`, with its assumptions printed.  The model is Model/RdpFixed.v
    (rdp._rdp_fixed / rdp_fixed); dist, prio are ORACLES (any valuation), eps is any value, n any size. *)
-From Coq Require Import List Arith Bool.
+From Coq Require Import ZArith List Arith Bool PrimFloat.
 From Knee Require Import Num NumFloat NpList OrdLaws FloatOrder Model.Mapping Model.RdpFixed Model.RdpFixedSpec
-     Proofs.ListFacts Proofs.MappingFacts Proofs.RdpFixedLists Proofs.RdpFixedFacts.
+     Proofs.ListFacts Proofs.MappingFacts Proofs.RdpFixedLists Proofs.RdpFixedFacts Proofs.RdpFixedBool Run.JudgeC05.
 Import ListNotations.
 Local Open Scope num_scope.
 
@@ -30,12 +30,13 @@ Theorem C05_fixed_nested : forall (N : Num) n (eps : T N) dist prio,
 Proof. exact @fixed_nested. Qed.
 Print Assumptions C05_fixed_nested.
 
-(* Tier O on the priorities present.  The split segment has maximal priority among the retained segments
-   with interior points *)
+(* Tier O on the priorities present (those of the retained segments with interior points along the chain).
+   The split segment has maximal priority among the retained segments with interior points *)
 Theorem C05_fixed_greedy : forall (N : Num) n (eps : T N) dist prio,
   2 <= n -> (forall l r, l + 3 <= r -> r <= n -> length (dist l r) = r - l) ->
   forall fuel k,
-  TotalPreorderOn (@notnan N) -> notnan (@zero N) -> (forall l r, notnan (prio l r)) ->
+  TotalPreorderOn (@notnan N) -> notnan (@zero N) ->
+  (forall j a b, In (a, b) (adj_pairs (red_of (rdp_fixed n eps dist prio fuel j))) -> a + 2 <= b -> notnan (prio a (b + 1))) ->
   n <= fuel -> 2 <= k -> k < n ->
   exists red a b,
     rdp_fixed n eps dist prio fuel k = Some (red, rows red) /\ In (a, b) (adj_pairs red) /\ a + 2 <= b /\
@@ -62,3 +63,36 @@ Theorem C05_split_interior : forall (N : Num) (eps : T N) (d : list (T N)),
   3 <= length d -> 1 <= split_guarded eps d <= length d - 2.
 Proof. exact @split_interior. Qed.
 Print Assumptions C05_split_interior.
+
+(* the boolean predicate the correspondence run judges the implementation with (Model/RdpFixedSpec.v: chain_code = 0
+   iff sizes, nesting, greedy and farthest clauses hold along the chain) is true of the model's own chain.
+   ordered = true adds the greedy clause and needs the priorities present to be non-NaN. *)
+Theorem C05_chain_holds : forall (N : Num) n (eps : T N) dist prio,
+  2 <= n -> (forall l r, l + 3 <= r -> r <= n -> length (dist l r) = r - l) ->
+  TotalPreorderOn (@notnan N) ->
+  forall fuel ordered, n <= fuel ->
+  (ordered = true ->
+   notnan (@zero N) /\
+   forall j a b, In (a, b) (adj_pairs (red_of (rdp_fixed n eps dist prio fuel j))) -> a + 2 <= b -> notnan (prio a (b + 1))) ->
+  chain_code n eps dist prio ordered (map (rdp_fixed n eps dist prio fuel) (seq 0 (n + 2))) = 0.
+Proof. exact @chain_code_model. Qed.
+Print Assumptions C05_chain_holds.
+
+(* on binary64 the order hypothesis is a theorem (FloatOrder.v) *)
+Theorem C05_chain_holds_float : forall n (eps : float) dist prio,
+  2 <= n -> (forall l r, l + 3 <= r -> r <= n -> length (dist l r) = r - l) ->
+  forall fuel ordered, n <= fuel ->
+  (ordered = true ->
+   @notnan FloatNum (@zero FloatNum) /\
+   forall j a b, In (a, b) (adj_pairs (red_of (@rdp_fixed FloatNum n eps dist prio fuel j))) -> a + 2 <= b ->
+                 @notnan FloatNum (prio a (b + 1))) ->
+  @chain_code FloatNum n eps dist prio ordered (map (@rdp_fixed FloatNum n eps dist prio fuel) (seq 0 (n + 2))) = 0.
+Proof. exact (fun n eps dist prio Hn Hs => @chain_code_model FloatNum n eps dist prio Hn Hs float_total_preorder). Qed.
+Print Assumptions C05_chain_holds_float.
+
+(* non-vacuity: a real symmetric curve ([[0,3],[1,1],[2,2],[3,2],[4,1],[5,3]], shortest distance, triangle order) with tied
+   priorities; tables = the library's primitives, outs = what rdp.rdp_fixed returned for k = 0..7.  The model reproduces the
+   chain (agree = 0) and the predicate holds (0); the shape and order hypotheses are satisfied (checked inside judge). *)
+Example C05_example :
+  judge (CChain 6%nat [((0%nat, 3%nat), [0x0.0p+0%float; 0x1.5775c544ff263p+0%float; 0x0.0p+0%float]); ((0%nat, 4%nat), [0x0.0p+0%float; 0x1.94c583ada5b52p+0%float; 0x1.43d136248490ep-2%float; 0x0.0p+0%float]); ((0%nat, 5%nat), [0x0.0p+0%float; 0x1.5775c544ff263p+0%float; 0x0.0p+0%float; 0x1.c9f25c5bfeddap-2%float; 0x0.0p+0%float]); ((0%nat, 6%nat), [0x0.0p+0%float; 0x1.0000000000000p+1%float; 0x1.0000000000000p+0%float; 0x1.0000000000000p+0%float; 0x1.0000000000000p+1%float; 0x0.0p+0%float]); ((1%nat, 4%nat), [0x0.0p+0%float; 0x1.c9f25c5bfedd9p-2%float; 0x0.0p+0%float]); ((1%nat, 5%nat), [0x0.0p+0%float; 0x1.0000000000000p+0%float; 0x1.0000000000000p+0%float; 0x0.0p+0%float]); ((1%nat, 6%nat), [0x0.0p+0%float; 0x1.c9f25c5bfedd9p-2%float; 0x0.0p+0%float; 0x1.5775c544ff263p+0%float; 0x0.0p+0%float]); ((2%nat, 5%nat), [0x0.0p+0%float; 0x1.c9f25c5bfedd9p-2%float; 0x0.0p+0%float]); ((2%nat, 6%nat), [0x0.0p+0%float; 0x1.43d136248490fp-2%float; 0x1.94c583ada5b52p+0%float; 0x0.0p+0%float]); ((3%nat, 6%nat), [0x0.0p+0%float; 0x1.5775c544ff263p+0%float; 0x0.0p+0%float])] [((0%nat, 3%nat), 0x1.8000000000000p+0%float); ((0%nat, 4%nat), 0x1.4000000000000p+1%float); ((0%nat, 5%nat), 0x1.8000000000000p+1%float); ((1%nat, 4%nat), 0x1.0000000000000p-1%float); ((1%nat, 5%nat), 0x1.8000000000000p+0%float); ((1%nat, 6%nat), 0x1.8000000000000p+1%float); ((2%nat, 5%nat), 0x1.0000000000000p-1%float); ((2%nat, 6%nat), 0x1.4000000000000p+1%float); ((3%nat, 6%nat), 0x1.8000000000000p+0%float)] [(Some ([0%nat; 5%nat], [(0%nat, 4%nat)])); (Some ([0%nat; 5%nat], [(0%nat, 4%nat)])); (Some ([0%nat; 5%nat], [(0%nat, 4%nat)])); (Some ([0%nat; 1%nat; 5%nat], [(0%nat, 0%nat); (1%nat, 3%nat)])); (Some ([0%nat; 1%nat; 4%nat; 5%nat], [(0%nat, 0%nat); (1%nat, 2%nat); (4%nat, 0%nat)])); (Some ([0%nat; 1%nat; 2%nat; 4%nat; 5%nat], [(0%nat, 0%nat); (1%nat, 0%nat); (2%nat, 1%nat); (4%nat, 0%nat)])); (Some ([0%nat; 1%nat; 2%nat; 3%nat; 4%nat; 5%nat], [(0%nat, 0%nat); (1%nat, 0%nat); (2%nat, 0%nat); (3%nat, 0%nat); (4%nat, 0%nat)])); (Some ([0%nat; 1%nat; 2%nat; 3%nat; 4%nat; 5%nat], [(0%nat, 0%nat); (1%nat, 0%nat); (2%nat, 0%nat); (3%nat, 0%nat); (4%nat, 0%nat)]))]) = 0%Z.
+Proof. vm_compute. reflexivity. Qed.
